@@ -38,6 +38,8 @@ pub struct World {
 	pub handlers: Vec<Arc<Mutex<Box<dyn EventHandler>>>>,
 	/// watch(p) fails while p is in this set
 	pub fail_watch: BTreeSet<PathBuf>,
+	/// a path in `fail_watch` fails only the first time it is watched (a transient failure)
+	pub fail_watch_once: bool,
 	pub fail_unwatch: BTreeSet<PathBuf>,
 }
 
@@ -125,7 +127,13 @@ impl notify::Watcher for Fake {
 		call_hook("watch", path);
 		let recursive = matches!(mode, RecursiveMode::Recursive);
 		let idx = self.idx;
-		let fail = with(|w| w.fail_watch.contains(path));
+		let fail = with(|w| {
+			let f = w.fail_watch.contains(path);
+			if f && w.fail_watch_once {
+				w.fail_watch.remove(path);
+			}
+			f
+		});
 		with(|w| {
 			w.calls.push((dex::rt::now(), Call::Watch { idx, path: path.to_path_buf(), recursive, ok: !fail }));
 			if !fail {
